@@ -463,3 +463,50 @@ fn c14_new_thread_inherits() {
     std::mem::forget(r);
     std::mem::forget(reg);
 }
+
+//@ harness: c14_hw_enable_three_threads
+//@ property: C14
+//@ obligation: H-C14-b
+//@ tier: thorough
+//@ encodes: HardwareBreakpoint::{new, enable}, HardwareDebugState::{current, sync}, TraceeCtl::tracee_iter
+//@ symbolic: pre-state image (all three threads agree), watched address, length, condition
+//@ bounds: 3 threads (pids 7, 8, 9); one enable from an arbitrary invariant state; unwind 6
+//@ oracle: as c14_hw_enable_step; the new image reaches every one of the three threads, a refusal touches none
+//@ stubs: ptrace::read_user / write_user -> per-thread u_debugreg array; HashMap -> T7
+//@ assumes: pre-state: all threads hold the same image; LE <=> exists L_i
+//@ timeout: 1500
+#[kani::proof]
+#[kani::stub(nix::sys::ptrace::read_user, stub_read_user)]
+#[kani::stub(nix::sys::ptrace::write_user, stub_write_user)]
+#[kani::unwind(6)]
+fn c14_hw_enable_three_threads() {
+    let pre = any_state();
+    unsafe { DREGS[2] = pre };
+    let pids = [Pid::from_raw(7), Pid::from_raw(8), Pid::from_raw(9)];
+    let ctl = TraceeCtl::new_external(Pid::from_raw(7), &pids);
+    let addr: usize = kani::any();
+    let (n, size) = any_size();
+    let (rw, cond) = any_cond();
+    let mut hw = HardwareBreakpoint::new(RelocatedAddress::from(addr), size, cond);
+    let res = hw.enable(&ctl);
+    let now = unsafe { DREGS };
+    let full = pre[7] & 0b0101_0101 == 0b0101_0101;
+    if full {
+        bsv!(res.is_err() && unsafe { WRITES } == 0, "fifth watchpoint refused without touching any thread");
+        bsv!(same(&now[0], &pre) && same(&now[1], &pre) && same(&now[2], &pre), "every thread untouched");
+    } else {
+        bsv!(res.is_ok(), "enable succeeds while a slot is free");
+        if let Ok(st) = &res {
+            let img = image_of(st);
+            bsv!(same(&now[0], &img) && same(&now[1], &img) && same(&now[2], &img), "the same image is written to all three threads");
+            let slot = hw.register.map(|r| r as usize).unwrap_or(9);
+            bsv!(slot < 4 && img[slot] == addr && (img[7] >> (2 * slot)) & 1 == 1, "the chosen slot holds the address and is enabled");
+            bsv!((img[7] >> (16 + 4 * slot)) & 3 == rw && (img[7] >> (18 + 4 * slot)) & 3 == sdm_len(n), "R/W and LEN of the chosen slot");
+        }
+    }
+    kani::cover!(full, "all four slots live");
+    kani::cover!(!full && pre[7] & 1 == 1, "slot 0 busy");
+    kani::cover!(true, "BSV-END");
+    std::mem::forget(res);
+    std::mem::forget(ctl);
+}
